@@ -713,6 +713,8 @@ class Inliner(object):
       else:
         m[nm] = "%s__%s" % (h.name.strip('_'), nm)
     body = [_Subst(m).visit(s) for s in body]
+    # a parameter that was a constant attribute name: getattr(x, 'name') is x.name
+    body = [_FoldAttr().visit(s) for s in body]
     ret = ("%s__ret%d" % (h.name.strip('_'), k)) if want_value and not tail else None
     done = "%s__done%d" % (h.name.strip('_'), k)
     if tail:
